@@ -540,6 +540,48 @@ func runC18(c *Check) {
 	c.Doc("C18-R7", "CS: the text encoder and decoder of every configuration leaf type with its own text codec are an inverse pair of the standard library applied to the whole value, with no transformation in between (what is written is what is read).")
 	ruleTextCodecsInverse(c, p)
 	ruleDecodeHooksPassValuesOn(c, p, "C18-R12")
+	ruleFlagsBoundBeforeFileRead(c, p, "C18-R13")
+}
+
+// ruleFlagsBoundBeforeFileRead (C18-R13): while the flags are bound, the loader copies every value
+// viper already has for an unset flag into the flag itself (pflag Set, which also marks the flag
+// as given on the command line). Before the file is read viper has such values only from the
+// environment; after it, for every option the file mentions: the file's values would be frozen
+// into the command's flags as if they had been passed, and outrank the file on every later Load
+// of the same command (a configuration saved and loaded again comes back with the old values).
+func ruleFlagsBoundBeforeFileRead(c *Check, p *Prog, rule string) {
+	c.Doc(rule, "EO: in the loader the flags are bound to viper (the visitor that calls BindPFlag, and may copy viper's value into an unset flag) before the configuration file is read, on every path: a file value is never written into a flag, where it would count as a command-line value and outrank the file.")
+	ld := p.Func(configPkg + ".Load")
+	if ld == nil {
+		c.Unk(rule, "Load", "", "", "anchor lost: the loader")
+		return
+	}
+	g := BuildECFG(p, ld, ownPkgOpts(configPkg, 2))
+	c.NoteGraph(g)
+	binds := g.Select(func(n *Node) bool { return strings.HasSuffix(CallName(n), "viper.Viper).BindPFlag") || strings.HasSuffix(CallName(n), "viper.Viper).BindPFlags") })
+	// the visitor runs inside VisitAll: the call of VisitAll stands for the bindings made in it
+	visits := g.Select(func(n *Node) bool { return strings.HasSuffix(CallName(n), "pflag.FlagSet).VisitAll") })
+	reads := g.Select(func(n *Node) bool {
+		return strings.HasSuffix(CallName(n), "viper.Viper).ReadInConfig") || strings.HasSuffix(CallName(n), "viper.Viper).MergeInConfig") || strings.HasSuffix(CallName(n), "viper.Viper).ReadConfig")
+	})
+	// the writes into flags: pflag's Set (on the set or on a flag's value)
+	sets := g.Select(func(n *Node) bool {
+		cn := CallName(n)
+		return strings.HasSuffix(cn, "pflag.FlagSet).Set") || strings.HasSuffix(cn, "pflag.Value).Set")
+	})
+	if len(sets) > 0 && len(reads) > 0 {
+		c.Decide(rule, "Load ⟂ no flag is written after the file was read", fnName(ld), p.InstrPos(sets[0].In), "no write into a flag is reachable from the file read",
+			"a flag can be written (pflag Set, which marks it as given on the command line) after the configuration file was read: viper then holds the file's values, they are copied into the unset flags, and on a later Load of the same command these stale values outrank the file — a configuration saved and loaded again comes back with the old values", g,
+			g.PathAvoiding(reads, nodeSet(sets), nil))
+	}
+	if len(reads) == 0 || len(binds)+len(visits) == 0 {
+		c.Unk(rule, "Load ⟂ bind<read", fnName(ld), "", fmt.Sprintf("anchor lost: %d flag bindings, %d file reads in reach of the loader", len(binds)+len(visits), len(reads)))
+		return
+	}
+	c.Decide(rule, "Load ⟂ flags bound before the file is read", fnName(ld), p.InstrPos(reads[0].In), "every path to the file read has bound the flags",
+		"the configuration file can be read before the flags are bound: the binding step then copies the file's values into the unset flags (marking them as given), and on a later Load of the same command those stale flag values outrank the file", g,
+		g.MustPrecede(orPred(nodeSet(binds), nodeSet(visits)), nodeSet(reads)))
+	c.MinInstances(rule, 1)
 }
 
 // ruleDecodeHooksPassValuesOn (C18-R12): between viper and the configuration structure sits a
